@@ -51,12 +51,22 @@ func c28Exec(a []string) string { //nolint:cyclop,gocognit
 		return "bad-op"
 	}
 	rate, _ := strconv.ParseUint(a[2], 10, 32)
-	ts0, _ := strconv.ParseUint(a[3], 10, 32)
-	seq0, _ := strconv.ParseUint(a[4], 10, 16)
 	nops, _ := strconv.Atoi(a[5])
 	capb := webrtc.RTPCodecCapability{ClockRate: uint32(rate)}
-	opts := []func(*webrtc.TrackLocalStaticRTP){
-		webrtc.WithRTPTimestamp(uint32(ts0)), webrtc.WithRTPSequenceNumber(uint16(seq0)),
+	// "r": the option is not used and pion/rtp picks a random initial value; every reported value is
+	// relative to the first packet of the history, so the output stays deterministic
+	opts := []func(*webrtc.TrackLocalStaticRTP){}
+	fixedTS, fixedSeq := a[3] != "r", a[4] != "r"
+	seq0 := uint64(0)
+	if fixedTS {
+		ts0, _ := strconv.ParseUint(a[3], 10, 32)
+		opts = append(opts, webrtc.WithRTPTimestamp(uint32(ts0)))
+	}
+	if fixedSeq {
+		seq0, _ = strconv.ParseUint(a[4], 10, 16)
+		opts = append(opts, webrtc.WithRTPSequenceNumber(uint16(seq0)))
+	} else {
+		seq0 = uint64(nops) // only picks among the G711/G722 mime types below
 	}
 	switch {
 	case a[1] == "opus":
@@ -83,7 +93,8 @@ func c28Exec(a []string) string { //nolint:cyclop,gocognit
 	}
 	codecs := []webrtc.RTPCodecParameters{{RTPCodecCapability: capb, PayloadType: 96}}
 	primary := &c28Writer{}
-	if _, err = track.Bind(&c29Ctx{id: "primary", ssrc: 1, codecs: codecs, w: primary}); err != nil {
+	primaryCtx := &c29Ctx{id: "primary", ssrc: 1, codecs: codecs, w: primary}
+	if _, err = track.Bind(primaryCtx); err != nil {
 		return "bind-failed"
 	}
 	type extra struct {
@@ -91,23 +102,24 @@ func c28Exec(a []string) string { //nolint:cyclop,gocognit
 		w   *c28Writer
 	}
 	extras := []extra{}
-	segs := []string{}
 	t := a[6:]
-	flush := func() string {
-		sb := &strings.Builder{}
-		fmt.Fprintf(sb, "%d", len(primary.pkts))
-		for _, p := range primary.pkts {
-			fmt.Fprintf(sb, " %d %d", p[0], p[1])
-		}
+	type seg struct {
+		mark string
+		pkts [][2]uint32
+		bad  bool
+	}
+	segs := []seg{}
+	flush := func() seg {
+		sg := seg{pkts: primary.pkts}
 		for _, e := range extras { // every other bound writer must have received the same packets
 			if fmt.Sprint(e.w.pkts) != fmt.Sprint(primary.pkts) {
-				sb.WriteString(" !fanout-differs")
+				sg.bad = true
 			}
 			e.w.pkts = nil
 		}
 		primary.pkts = nil
 
-		return sb.String()
+		return sg
 	}
 	for k := 0; k < nops; k++ {
 		if len(t) == 0 {
@@ -145,7 +157,7 @@ func c28Exec(a []string) string { //nolint:cyclop,gocognit
 				return "bind-failed"
 			}
 			extras = append(extras, e)
-			segs = append(segs, "b")
+			segs = append(segs, seg{mark: "b"})
 			t = t[1:]
 		case "U":
 			if n := len(extras); n > 0 {
@@ -154,14 +166,59 @@ func c28Exec(a []string) string { //nolint:cyclop,gocognit
 				}
 				extras = extras[:n-1]
 			}
-			segs = append(segs, "u")
+			segs = append(segs, seg{mark: "u"})
+			t = t[1:]
+		case "R":
+			if err := track.Unbind(primaryCtx); err != nil {
+				return "unbind-failed"
+			}
+			if _, err := track.Bind(primaryCtx); err != nil {
+				return "bind-failed"
+			}
+			segs = append(segs, seg{mark: "rb"})
 			t = t[1:]
 		default:
 			return "bad-op"
 		}
 	}
 
-	return strings.Join(segs, " | ")
+	var first *[2]uint32
+	for i := range segs {
+		if len(segs[i].pkts) > 0 {
+			first = &segs[i].pkts[0]
+
+			break
+		}
+	}
+	out := []string{"first - -"}
+	if first != nil {
+		fs, ft := "r", "r"
+		if fixedSeq {
+			fs = strconv.Itoa(int(first[0]))
+		}
+		if fixedTS {
+			ft = strconv.FormatUint(uint64(first[1]), 10)
+		}
+		out[0] = "first " + fs + " " + ft
+	}
+	for _, sg := range segs {
+		if sg.mark != "" {
+			out = append(out, sg.mark)
+
+			continue
+		}
+		sb := &strings.Builder{}
+		fmt.Fprintf(sb, "%d", len(sg.pkts))
+		for _, p := range sg.pkts {
+			fmt.Fprintf(sb, " %d %d", uint16(p[0]-first[0]), p[1]-first[1])
+		}
+		if sg.bad {
+			sb.WriteString(" !fanout-differs")
+		}
+		out = append(out, sb.String())
+	}
+
+	return strings.Join(out, " | ")
 }
 
 func init() { //nolint:gocognit,cyclop
@@ -170,22 +227,29 @@ func init() { //nolint:gocognit,cyclop
 		Timeout: 60 * time.Second,
 		Exec:    c28Exec,
 		Rule: "Seeded random sample sequences written with TrackLocalStaticSample.WriteSample through the public API " +
-			"(WithRTPTimestamp / WithRTPSequenceNumber fix the start; a recording TrackLocalWriter observes every " +
-			"packet's sequence number and timestamp). Per history: clock rate 8000 / 48000 / 90000 (85%) or " +
+			"(a recording TrackLocalWriter observes every packet's sequence number and timestamp). The track is " +
+			"created with WithRTPTimestamp and WithRTPSequenceNumber, with only one of them, or with neither (a " +
+			"quarter each; without the option pion/rtp draws a random initial value, so sequence numbers and " +
+			"timestamps are reported relative to the first packet of the history, mod 2^16 / 2^32, plus the first " +
+			"packet's absolute value where the option fixed it). Per history: clock rate 8000 / 48000 / 90000 (85%) or " +
 			"16000, 44100, 1, 4294967295 (15%); payloader Opus, G711/G722, VP8 (real pion/rtp payloaders) or the " +
 			"harness's own chunking payloader incl. one that returns no payload; initial timestamp / sequence " +
 			"number random or within 2000 of wrap-around; 20..600 ops (some 2000..6000); a duration pattern: fixed " +
 			"20 ms, 33.333333 ms, 33333333 ns, 33366700 ns (1/29.97 s), 1 ns, 999999 ns, one tick ± 1 ns, 0, " +
 			"uniformly random ≤ 50 ms, 1..10 s, or a per-sample mixture; data sizes 0..4000 bytes (1..4 packets); " +
-			"PrevDroppedPackets 0 (90%) or 1, 2, 7, 100, 65535; interleaved GeneratePadding bursts and Bind/Unbind of " +
-			"further contexts (must not reset the packetizer). A malformed stream (10%) adds clock rate 0 and " +
+			"PrevDroppedPackets 0 (90%) or 1, 2, 7, 100, 65535; interleaved GeneratePadding bursts, Bind/Unbind of " +
+			"further contexts (two and more bindings) and Unbind + Bind again of the observed context between " +
+			"samples (none of which may reset the packetizer or the sequencer). A malformed stream (10%) adds clock rate 0 and " +
 			"one sample whose dropped time exceeds uint32 ticks (hours-long sample × 65535 dropped packets, kept " +
 			"below 2^50 ticks; beyond that see known_findings.json), followed by up to 400 more ops. " +
 			"The Lean model is evaluated with a bit-exact IEEE-754 binary64 replica of the Go arithmetic, so model " +
 			"and implementation outputs are compared exactly; the property itself is judged against exact " +
 			"integer arithmetic with the property's own tolerance (timestamp within one tick of " +
 			"ts0 + floor(total·rate/1e9) mod 2^32 — a bound on the distance to the exact total, hence " +
-			"non-accumulating). Non-trivial: distinct histories with at least 10 packets.",
+			"non-accumulating; with a random initial timestamp: some initial value puts every sample within one " +
+			"tick, i.e. the deviations of the relative timestamps from the exact relative tick counts span at " +
+			"most 2). Sequence numbers are judged on the relative values (every packet = packets so far + total " +
+			"skipped after the first packet) and on the first packet's absolute value where it was fixed. Non-trivial: distinct histories with at least 10 packets.",
 		Gen: func(c *Ctx) {
 			r := c.Rng
 			durTable := []int64{20000000, 33333333, 33333334, 33366700, 1, 999999, 10000000, 2500000, 21333333, 0, 41708333}
@@ -244,6 +308,8 @@ func init() { //nolint:gocognit,cyclop
 						sb.WriteString(" B")
 					case x < 4:
 						sb.WriteString(" U")
+					case x < 5:
+						sb.WriteString(" R")
 					default:
 						var dur int64
 						switch pattern {
@@ -304,7 +370,18 @@ func init() { //nolint:gocognit,cyclop
 						}
 					}
 				}
-				c.Emit("seq %s %d %d %d %d%s", pay, rate, ts0, seq0, ops, sb.String())
+				// the options that fix the initial values are used, or not, independently: without them
+				// pion/rtp draws a random timestamp / sequence number (the normal case in applications)
+				tsTok, seqTok := strconv.FormatUint(uint64(ts0), 10), strconv.Itoa(int(seq0))
+				switch r.Intn(4) {
+				case 0:
+					tsTok, seqTok = "r", "r"
+				case 1:
+					seqTok = "r"
+				case 2:
+					tsTok = "r"
+				}
+				c.Emit("seq %s %d %s %s %d%s", pay, rate, tsTok, seqTok, ops, sb.String())
 			}
 		},
 		Class: func(a []string, out string) string {
@@ -343,7 +420,18 @@ func init() { //nolint:gocognit,cyclop
 				pay = "chunk"
 			}
 
-			return fmt.Sprintf("rate=%s payloader=%s samples=%s samples-with-drops=%s beyond-uint32=%s", a[2], pay, sz, d, b2s(big))
+			ini := "fixed-ts+seq"
+			switch {
+			case a[3] == "r" && a[4] == "r":
+				ini = "random-ts+seq"
+			case a[3] == "r":
+				ini = "random-ts"
+			case a[4] == "r":
+				ini = "random-seq"
+			}
+
+			return fmt.Sprintf("rate=%s payloader=%s initial=%s samples=%s samples-with-drops=%s beyond-uint32=%s",
+				a[2], pay, ini, sz, d, b2s(big))
 		},
 		Trivial: func(_ []string, out string) bool {
 			n := 0
